@@ -252,26 +252,45 @@ def coq_theorems(path):
 
 
 def coq_check_props(area, propfile="Properties.v", timeout=1500, extra_targets=()):
-    """Build coq/<area>; then re-run coqc on the Properties file alone to capture Print Assumptions.
-    Returns dict(ok, theorems, assumptions(text), log, forbidden(list))."""
+    """Build coq/<area> and capture the Print Assumptions output of the Properties file.
+    The Properties file is compiled exactly once: first everything else is built with make, then coqc runs on the
+    Properties file itself (writing its .vo and printing the assumptions), then a final make brings anything that depends
+    on it up to date.  Returns dict(ok, theorems, assumptions(text), log, forbidden(list))."""
     d = coq_dir(area)
     res = {"ok": False, "theorems": [], "assumptions": {}, "log": "", "forbidden": []}
     res["forbidden"] = forbidden_scan(d)
-    ok, out = coq_make(area, timeout=timeout)
-    res["log"] = out[-6000:]
     pf = os.path.join(d, propfile)
     res["theorems"] = coq_theorems(pf)
     vo = pf[:-2] + ".vo"
-    if ok and os.path.exists(vo) and not res["forbidden"]:
-        res["ok"] = True
-    # Print Assumptions output (re-compile the properties file only; cheap)
-    if os.path.exists(vo):
+    others = []
+    try:
+        for l in open(os.path.join(d, "_CoqProject")):
+            t = l.strip()
+            if t.endswith(".v") and not t.startswith("-") and t != propfile:
+                others.append(t + "o")
+    except OSError:
+        pass
+    listed = os.path.exists(pf) and any(l.strip() == propfile for l in open(os.path.join(d, "_CoqProject")))
+    if not others or not listed:
+        # unusual project layout: fall back to a full make followed by a second compile of the Properties file
+        ok, out = coq_make(area, timeout=timeout)
+    else:
+        ok, out = coq_make(area, targets=others, timeout=timeout)
+    res["log"] = out[-6000:]
+    rc, o = 1, ""
+    if os.path.exists(pf):
         args = coqproject_args(d)
         rc, o = sh(["coqc"] + args + [propfile], cwd=d, timeout=timeout)
         res["assumptions"] = parse_assumptions(o, res["theorems"])
         if rc != 0:
-            res["ok"] = False
             res["log"] += "\n" + o[-3000:]
+    if ok and rc == 0:
+        ok2, out2 = coq_make(area, timeout=timeout)     # whatever depends on the Properties file; normally a no-op
+        if not ok2:
+            ok = False
+            res["log"] += "\n" + out2[-3000:]
+    if ok and rc == 0 and os.path.exists(vo) and not res["forbidden"]:
+        res["ok"] = True
     return res
 
 
